@@ -402,7 +402,7 @@ def rule_wrapper_hygiene(check, rule):
             continue
         check.analysed(init)
         selfn = init.params()[0][0]
-        body = init.node.body
+        body = init.main_body
         uw = None
         for i, stmt in enumerate(body):
             for n in ast.walk(stmt):
@@ -495,8 +495,10 @@ def rule_pure_forwarding(check, rule):
         pos, vararg, kwonly, kwarg = call.params()
         selft = ('P', pos[0])
         key = '%s|__call__' % ci.key
-        trys = [n for n in ast.walk(call.node) if isinstance(n, ast.Try)]
-        ok = len(paths) == 1 and paths[0].status == 'return' and not trys and vararg and kwarg and len(pos) == 1
+        # (a try/finally without handlers propagates every exception: only handlers can swallow or convert one)
+        trys = [n for n in ast.walk(call.node) if isinstance(n, ast.Try) and n.handlers]
+        paths = [p_ for p_ in paths if p_.status != 'raise' or p_.value is not None]
+        ok = len([p_ for p_ in paths if p_.status == 'return']) == 1 and len(paths) == 1 and paths[0].status == 'return' and not trys and vararg and kwarg and len(pos) == 1
         if ok:
             v = paths[0].value
             ok = v[0] in ('C', 'M')
@@ -586,7 +588,7 @@ def rule_pure_forwarding(check, rule):
                     why = 'each step computes %s' % (show(out)[:80] if out else None)
             else:
                 why = 'the loop body has several exits'
-    if ok and not [n for n in ast.walk(call.node) if isinstance(n, ast.Try)]:
+    if ok and not [n for n in ast.walk(call.node) if isinstance(n, ast.Try) and n.handlers]:
         check.holds(rule, site_of(call, call.node), 'Combination.__call__ threads the first argument through self.functions in order, other arguments '
                     'unchanged, and returns the last result', key=key)
     else:
